@@ -89,6 +89,21 @@ INT, REAL, BOOL, NONE, EXT, STR = _Int(), _Real(), _Bool(), _None(), _Ext(), _St
 
 
 @dataclass(frozen=True)
+class FUNC(Kind):
+    """a callable parameter, modelled as an uninterpreted function  Ref -> result kind (INT / REAL)"""
+    result: Kind
+
+    def cols(self): return []
+
+    def fresh(self, base: str):
+        srt = self.result.cols()[0][1]
+        return VFunc('uf', (z3.Function(fresh_name(base), Ref, srt), self.result))
+
+    def from_cols(self, t):
+        raise TypeError("callables are not storable")
+
+
+@dataclass(frozen=True)
 class OBJ(Kind):
     classes: Tuple[str, ...]
 
